@@ -773,7 +773,7 @@ class Interp:
 
     def instantiate(self, cls, args, kwargs, node=None):
         kind = self.kind_of_cls(cls)
-        for k, fn in CTOR_MODELS.items():
+        for k, fn in list(getattr(self, "ctor_models", {}).items()) + list(CTOR_MODELS.items()):  # case-level models first
             if issubclass(kind, k):
                 init_raw, _ = self.static_lookup(kind, "__init__")
                 if id(init_raw) in self.target_ids:
